@@ -62,7 +62,11 @@ def innermost_ndn_frame(exc: BaseException) -> str:
 
 
 def exc_brief(exc: BaseException) -> str:
-    return f'{type(exc).__name__}: {str(exc)[:160]}'
+    # (object addresses differ from run to run: they must not get into a history that is to replay byte for byte)
+    return f'{type(exc).__name__}: {_ADDR.sub(" at 0x..", str(exc))[:160]}'
+
+
+_ADDR = __import__('re').compile(r' at 0x[0-9a-fA-F]+')
 
 
 class Result:
